@@ -66,6 +66,7 @@ psatx = z3.Function('psatx', ISeq, Bool)               # the parity X + [b] hold
 valid1x = z3.Function('valid1x', Int, Int, ISeq, Bool) # X + [b]: k strictly increasing variables of 1..n, then a bit
 cvalidx = z3.Function('cvalidx', Int, Int, CSeq, Bool) # every element is valid1x and psatx
 signvecsm = z3.Function('signvecsm', Int, CSeq)         # itertools.product([-1, 1], repeat=k): all sign vectors, -1 first
+yxdom = z3.Function('yxdom', Int, Int, Int, CSeq)      # (k, n, t): the planted-compatible parities X+[0], X+[1] over the first t domains
 ysign = z3.Function('ysign', Int, ISeq, Int, CSeq)     # (k, domain, j): the planted-compatible clauses among the first j sign patterns over the domain
 ydom = z3.Function('ydom', Int, Int, Int, CSeq)        # (k, n, t): the same over the first t domains (k-subsets of 1..n in itertools order)
 navail_x = z3.Function('navail_x', Int, Int, Int)          # number of k-parities over n variables compatible with the planted assignments (uninterpreted)
@@ -198,7 +199,7 @@ FUNCS = dict(tlen=tlen, tcoef=tcoef, tlit=tlit, tunit=tunit, tnegc=tnegc, tset=t
              ilen=ilen, iget=iget, inil=inil, isnoc=isnoc, iapp=iapp, ineg=ineg, haszero=haszero,
              maxof=maxof, minof=minof, maxabs=maxabs, lit_true=lit_true, count=count, ctrue=ctrue,
              clen=clen, cget=cget, cnil=cnil, csnoc=csnoc, capp=capp, ctake=ctake, combs=combs, sat=sat,
-             cmaxabs=cmaxabs, pow2=pow2, chaszero=chaszero, psum=psum, card2=card2, isperm=isperm, sortedperm=sortedperm, invperm=invperm, imapsub=imapsub, zpos=zpos, mpos=mpos, rnbrs=rnbrs, apseq=apseq, negunits=negunits, idxcombs=idxcombs, iflip1=iflip1, iflips=iflips, neqprefix=neqprefix, signvecs=signvecs, sprod=sprod, smul=smul, pfilter=pfilter, iofarr=iofarr, nbrs=nbrs, evar=evar, liftcls=liftcls, liftsem=liftsem, yblock=yblock, ifront=ifront, ilast=ilast, psatx=psatx, valid1x=valid1x, cvalidx=cvalidx, signvecsm=signvecsm, ysign=ysign, ydom=ydom, psat=psat, valid1=valid1, cvalid=cvalid, cdistinct=cdistinct, cmem=cmem, cset=cset, csubsel=csubsel, implchain=implchain, ishift=ishift, preds=preds, outdeg=outdeg, gtopo=gtopo, gsinkok=gsinkok,
+             cmaxabs=cmaxabs, pow2=pow2, chaszero=chaszero, psum=psum, card2=card2, isperm=isperm, sortedperm=sortedperm, invperm=invperm, imapsub=imapsub, zpos=zpos, mpos=mpos, rnbrs=rnbrs, apseq=apseq, negunits=negunits, idxcombs=idxcombs, iflip1=iflip1, iflips=iflips, neqprefix=neqprefix, signvecs=signvecs, sprod=sprod, smul=smul, pfilter=pfilter, iofarr=iofarr, nbrs=nbrs, evar=evar, liftcls=liftcls, liftsem=liftsem, yblock=yblock, ifront=ifront, ilast=ilast, psatx=psatx, valid1x=valid1x, cvalidx=cvalidx, yxdom=yxdom, signvecsm=signvecsm, ysign=ysign, ydom=ydom, psat=psat, valid1=valid1, cvalid=cvalid, cdistinct=cdistinct, cmem=cmem, cset=cset, csubsel=csubsel, implchain=implchain, ishift=ishift, preds=preds, outdeg=outdeg, gtopo=gtopo, gsinkok=gsinkok,
              ev3=ev3, opq=opq, wid=wid, evrow=evrow, rowapp=rowapp, rowsfrom=rowsfrom, dropc=dropc, dterms=dterms, dcons=dcons, tevent=tevent, cevent=cevent, dlits=dlits, dclauses=dclauses, levent=levent, gad=gad, cdist_tab=cdist_tab, cdist=cdist, cdistall=cdistall, cind=cind, satind=satind, aind=aind)
 
 
@@ -396,6 +397,17 @@ def _on_terms(terms_by_decl):
         out.append(z3.Implies(j == 0, ysign(k, d, j) == cnil))
         out.append(z3.Implies(z3.And(0 <= j, j < pow2(k), k >= 0),
                               ysign(k, d, j + 1) == z3.If(psat(c), csnoc(ysign(k, d, j), c), ysign(k, d, j))))
+    for (k, n, t) in terms_by_decl.get('yxdom', []):
+        # Sample.lean yxdom_zero / yxdom_succ / all_parities_spec
+        D = combs(apseq(z3.IntVal(1), n), k)
+        X = cget(D, t)
+        y0 = yxdom(k, n, t)
+        y1 = z3.If(psatx(isnoc(X, z3.IntVal(0))), csnoc(y0, isnoc(X, z3.IntVal(0))), y0)
+        out.append(z3.Implies(t == 0, yxdom(k, n, t) == cnil))
+        out.append(z3.Implies(z3.And(0 <= t, t < clen(D)),
+                              yxdom(k, n, t + 1) == z3.If(psatx(isnoc(X, z3.IntVal(1))), csnoc(y1, isnoc(X, z3.IntVal(1))), y1)))
+        out.append(z3.Implies(z3.And(k >= 0, n >= 0, t == clen(D)),
+                              z3.And(cdistinct(yxdom(k, n, t)), cvalidx(k, n, yxdom(k, n, t)), clen(yxdom(k, n, t)) == navail_x(k, n))))
     for (k, n, t) in terms_by_decl.get('ydom', []):
         D = combs(apseq(z3.IntVal(1), n), k)
         out.append(z3.Implies(t == 0, ydom(k, n, t) == cnil))
